@@ -172,7 +172,10 @@ def run_c03(ctx) -> Corr:
                 "unknown types, every internal kind) x states (version known/unknown, node/child known/unknown, sleeping or "
                 "not, preloaded registries) x 5 versions x write faults; after every error a well-formed probe line is fed and "
                 "must be yielded; compared on the outcome-class view with the Lean model. non-trivial = distinct (state, line) "
-                "whose outcome is an error")
+                "whose outcome is an error. Plus byte histories on a real stream transport under a real Gateway (read, listen, "
+                "handler, send, write in one piece; bytes that are not valid UTF-8 inside otherwise well-formed lines, later lines "
+                "that make the gateway write back what it stored), counted under pipeline:*; non-trivial there = a line that is "
+                "not UTF-8, an error outcome, or a non-ASCII write")
     rng = lib.rng_for(ctx.seed, "c03")
     hists = [h for _, h in corpus_histories("C03")]
     hists += histories(ctx, "c03h", 250, 4000, send_ratio=0.1, fault_ratio=0.08)
@@ -228,6 +231,10 @@ def run_c03(ctx) -> Corr:
     account(corr, hists, impl, lambda h, op, before, o: not o["out"].startswith("ok"))
     _stream_bytes(corr, ctx)
     _concurrent_sends(corr, ctx)
+    # the whole pipeline bytes -> StreamTransport.read -> listen -> handler -> send -> StreamTransport.write on one real
+    # stream transport, as multi-step byte histories (what is stored from one line is written back because of a later one)
+    from . import bytepipe
+    bytepipe.run(corr, ctx)
     return corr
 
 
